@@ -193,7 +193,13 @@ def run(chk, drv):
                 chk.disagree("time arithmetic", ln, r, w)
     # ---- oracle on the implementation, against the reference
     offsets = [0, 60, -300, 330, 765, -720, 840]
-    for us in tvals:
+    # thorough: the exhaustive fraction sweep (2·10^6 values per kind) goes through the model correspondence above in
+    # full; the reference-implementation oracle below, ~100× dearer per value, takes every 16th of them (plus everything else)
+    def sampled(vals):
+        if chk.tier == "quick":
+            return vals
+        return [v for v in vals if not (-10**6 <= v < 10**6) or v % 16 == 0 or abs(v) < 2000 or v % 1000 in (0, 1, 999)]
+    for us in sampled(tvals):
         off = rng.choice(offsets)
         lo = TS_MIN - off * 60 * 10**6
         hi = TS_MAX - off * 60 * 10**6
@@ -203,7 +209,7 @@ def run(chk, drv):
         chk.count("ts_" + ("epoch" if us == 0 else "pre_epoch" if us < 0 else "post_epoch"))
         chk.count("ts_frac_" + ("none" if us % 10**6 == 0 else "ms" if us % 1000 == 0 else "us"))
         ts_oracle(chk, us, off)
-    for us in dvals:
+    for us in sampled(dvals):
         chk.case("d %d" % us, us != 0, {"duration_us": us})
         chk.count("dur_" + ("zero" if us == 0 else "neg" if us < 0 else "pos"))
         dur_oracle(chk, us)
